@@ -265,6 +265,53 @@ func (g *opw) forceSegment() {
 	g.after()
 }
 
+// transition A is dropped at its execution time while its hand-over signing S1 is still open in x/tss; transition B
+// reaches WAITING_SIGN with its own hand-over signing S2; the current group then completes the STALE S1 (not S2).
+// B's hand-over message was never signed, so at B's execution time the group must not change.
+func (g *opw) staleHandoverSegment() {
+	rt, c := g.rt, g.c
+	// the scenario needs a current group, signings that stay open for many blocks and a window with room for B
+	c.HasCur = true
+	if c.SignPeriod < 30 {
+		c.SignPeriod = gen.Range(rt, "signpl", 30, 60)
+	}
+	if c.Max < c.Min+8 {
+		c.Max = c.Min + 8
+	}
+	if c.Creation < 5 {
+		c.Creation = 5
+	}
+	g.emit(op{K: "actall"}, op{K: "desall", B: 2}, op{K: "end", A: gen.OneOf(rt, "dt0", 1, 1, 5)})
+	dkg := func() {
+		for r := 0; r < 3; r++ {
+			g.emit(op{K: "dkg", Mask: 0xff}, op{K: "end", A: 1})
+		}
+	}
+	// A: accepted at the voting end Te, key generation done at Te+3 (=> WAITING_SIGN, S1), ExecTime = Te+4
+	g.emit(op{K: "propT", Mask: g.memberMask(), A: gen.Uniform(rt, "thr", 4), B: 4}, op{K: "end", A: 1}, op{K: "endv"})
+	dkg()
+	if gen.Chance(rt, "reqA", 1, 3) {
+		g.emit(op{K: "req", A: gen.Uniform(rt, "u", nReq)})
+	}
+	g.emit(op{K: "endx", A: gen.OneOf(rt, "xa", 0, 0, 1)}) // nobody signs S1: A is dropped
+	if gen.Chance(rt, "idle", 1, 3) {
+		g.emit(op{K: "end", A: 1})
+	}
+	// B: room for three DKG blocks and the block in which the stale S1 completes, before its ExecTime
+	offB := gen.Range(rt, "offB", 6, 8)
+	g.emit(op{K: "propT", Mask: g.memberMask(), A: gen.Uniform(rt, "thr", 4), B: offB}, op{K: "end", A: 1}, op{K: "endv"})
+	dkg()
+	g.emit(op{K: "sign", A: -1, Mask: 0xff}, op{K: "end", A: 1})
+	switch gen.Pick(rt, "staleThen", 5, 2, 1) {
+	case 1: // afterwards B's own hand-over is signed as well: B may execute
+		g.emit(op{K: "sign", A: 0, Mask: 0xff})
+	case 2:
+		g.emit(op{K: "req", A: gen.Uniform(rt, "u", nReq)})
+	}
+	g.emit(op{K: "endx", A: gen.OneOf(rt, "xb", 0, 0, 1, -1)})
+	g.after()
+}
+
 // after the execution time: requests and signing with whatever group is current now
 func (g *opw) after() {
 	rt := g.rt
@@ -288,6 +335,9 @@ func genC18(rt *rapid.T) c18Case {
 	c.Max = c.Min + gen.OneOf(rt, "maxd", 0, 5, 8, 8, 10, 12, 12)
 	c.Creation = gen.Range(rt, "creation", 4, 9)
 	c.SignPeriod = gen.Range(rt, "signp", 1, 3)
+	if gen.Chance(rt, "signlong", 1, 3) { // signings that outlive a whole transition
+		c.SignPeriod = gen.Range(rt, "signpl", 30, 60)
+	}
 	c.MaxAttempt = gen.OneOf(rt, "maxatt", 1, 2, 3)
 	c.Fee = int64(gen.OneOf(rt, "fee", 0, 5, 10, 10))
 	c.Penalty = gen.OneOf(rt, "penalty", 1, 1, 2, 5)
@@ -297,7 +347,9 @@ func genC18(rt *rapid.T) c18Case {
 	nseg := rapid.IntRange(1, 3).Draw(rt, "nseg")
 	for i := 0; i < nseg; i++ {
 		g.starve = gen.Chance(rt, "starve", 1, 4)
-		switch gen.Pick(rt, "seg", 6, 3, 1) {
+		switch gen.Pick(rt, "seg", 6, 3, 1, 1) {
+		case 3:
+			g.staleHandoverSegment()
 		case 0:
 			g.transitionSegment()
 		case 1:
